@@ -21,7 +21,7 @@ Agree == MObs = HObs
 \* the machine stopped with the stack_overflow error although the source semantics did not ask for it: the
 \* stack was too small for this run (outside the semantic envelope; judged by C04's differential clause)
 EndsInOverflow(o) == Len(o.ev) >= 2 /\ o.ev[Len(o.ev) - 1] = [k |-> "f", v |-> <<5>>] /\ o.ev[Len(o.ev)] = [k |-> "f", v |-> <<2>>]
-Exhausted == EndsInOverflow(MObs) /\ ~EndsInOverflow(HObs)
+Exhausted == EndsInOverflow(MObs)          \* (only consulted when the observables differ)
 PrefixOK == LET n == Len(MObs.ev) - 2 IN n <= Len(HObs.ev) /\ SubSeq(MObs.ev, 1, n) = SubSeq(HObs.ev, 1, n)
 Class == IF ~Conclusive THEN "inconclusive"
          ELSE IF Agree THEN "agree"
